@@ -1,6 +1,7 @@
 """Shared machinery of the checks: obligations (translator, lake build, axiom audit, hygiene grep),
 the Lean driver, known findings, verdict, replay and evidence files."""
 import fcntl
+import logging
 import hashlib
 import json
 import os
@@ -17,6 +18,18 @@ REPO = os.environ.get("VERIF_REPO", "/repo")
 DRIVER = os.path.join(LEAN, ".lake", "build", "bin", "driver")
 ALLOWED_AXIOMS = {"propext", "Classical.choice", "Quot.sound"}
 LEAN_ENV = dict(os.environ)
+
+
+def quiet_formulae():
+    """formulae configures its logger on import; silence it afterwards."""
+    import warnings
+    try:
+        import formulae  # noqa
+    except Exception:  # noqa
+        pass
+    logging.getLogger("formulae").setLevel(logging.CRITICAL)
+    warnings.filterwarnings("ignore")
+
 
 sys.path.insert(0, HERE)
 if REPO not in sys.path:
